@@ -384,7 +384,10 @@ class Verifier:
                         nxt.append((s2, a2))
                 cur = nxt
             for s1, a in cur:
-                yield s1, s1.new_obj(cls, a)
+                o = s1.new_obj(cls, a)
+                if cls.node is not None:
+                    I.PARTIAL_OIDS.add(o.oid)       # a repository class described only by the fields the spec declares
+                yield s1, o
         elif tag == "objseq":
             cls = spec.a[0]
             if isinstance(cls, str):
